@@ -188,6 +188,20 @@ Theorem C16_views_cover : forall d k o,
 Proof. exact c_views_cover. Qed.
 Print Assumptions C16_views_cover.
 
+(* indexed(b, b+1, ..., b+n-1) copies exactly the elements that slice(b, b+n) aliases: the flat segment of n rows
+   starting at row b (rows of size (tl d) elements; guard: that row size is not negative) *)
+Theorem C16_gather_consecutive : forall (d : dims) (flat : list Z) (n b : nat),
+  0 <= size (tl d) ->
+  gather d flat (map Z.of_nat (seq b n)) =
+  segment (Z.of_nat b * size (tl d)) (Z.of_nat n * size (tl d)) flat.
+Proof. intros d flat n b. exact (c_gather_consecutive d flat n b). Qed.
+Print Assumptions C16_gather_consecutive.
+
+Example C16_gather_consecutive_nonvacuous :
+  gather [4; 2] [10; 11; 20; 21; 30; 31; 40; 41] (map Z.of_nat (seq 1 2)) = [20; 21; 30; 31] /\
+  fst (view_slice [4; 2] 1 3) = 1 * size (tl [4; 2]) /\ size (snd (view_slice [4; 2] 1 3)) = 2 * size (tl [4; 2]).
+Proof. vm_compute. repeat split; reflexivity. Qed.
+
 Example C16_compose_nonvacuous :
   validpb [3; 4; 5] ([2] ++ [3]) = true /\ view_tensor [4; 5] [3] = (15, [5]) /\ view_tensor [3; 4; 5] [2] = (40, [4; 5]) /\
   slice_validb [6; 2] 1 5 = true /\ slice_validb (snd (view_slice [6; 2] 1 5)) 1 3 = true /\
